@@ -74,8 +74,9 @@ pub fn case_strategy() -> impl Strategy<Value = Case> {
         .prop_map(|(flavor, wt_is_server, variant, mut items, datagrams, close_capsule, code, reason, relay, (default_config, ending, dgram_backlog), (crowd, crowd_bidi, crowd_pos))| {
             for j in 0..crowd {
                 // positions vary inside the crowd but stay "stalled before the application can see it"
-                // for most of them, so the crowd does not need the application to hold 28 streams
-                items.insert(0, Item { stalled: true, bidi: crowd_bidi, pos: if j % 4 == 3 { crowd_pos } else { crowd_pos % 2 } });
+                // for most of them, so the crowd does not need the application to hold 28 streams (and never
+                // the megabytes of the window-filling stall)
+                items.insert(0, Item { stalled: true, bidi: crowd_bidi, pos: if j % 4 == 3 { if crowd_pos == 3 { 2 } else { crowd_pos } } else { crowd_pos % 2 } });
             }
             // at least one healthy and one stalled item
             if !items.iter().any(|i| !i.stalled) {
